@@ -141,7 +141,7 @@ func VH_C16_unicode() {
 	db := Open(root)
 	LowercaseNames = false
 	vAssert("C16.uni.create", db.Create(&vCase{}, DefaultSchema) == nil)
-	ins := []string{"Alice", "bob", "Web.01", "Émile", "Zé-42", "é", "ÉCOLE", "straße", "ǅ", "ÀÉÎõü", "mixedÄscii"}
+	ins := []string{"Alice", "bob", "Web.01", "Émile", "Zé-42", "é", "ÉCOLE", "straße", "ǅ", "ÀÉÎõü", "mixedÄscii", "ⓐⓑ", "ⅱ-Ⅲ", "ﬁn"}
 	in := ins[vChoice("in", len(ins))]
 	field := []string{"Up", "Lo", "Uq", "Nest.Low"}[vChoice("field", 4)]
 	o := &vCase{Up: "x", Lo: "x", Uq: "first"}
